@@ -87,11 +87,11 @@ def pick (c : BC) (p : Rat) : Option Nat :=
 /-- cumulative weight of the first `i` keys -/
 def cum (c : BC) (i : Nat) : Rat := ((c.keys.take i).map (·.2)).sum
 
-/-- distance of the draw to the nearest cumulative threshold, relative to the total (for the
-tie rule; a draw of exactly 0 is decided exactly in f64 too) -/
+/-- distance of the draw to the nearest *interior* cumulative threshold, relative to the total
+(for the tie rule). Thresholds 0 and `total` need no margin: a non-zero draw is a positive f64
+and the draw never exceeds the total, on both sides. -/
 def pickMargin (c : BC) (p : Rat) : Rat :=
-  if p = 0 then 1 else
-  let cs := (List.range (c.keys.length + 1)).map c.cum
+  let cs := ((List.range (c.keys.length + 1)).map c.cum).filter fun x => 0 < x ∧ x < c.total
   let t := if c.total = 0 then 1 else c.total
   cs.foldl (fun m x => let d := (if p - x < 0 then x - p else p - x) / t; if d < m then d else m) 1
 
